@@ -28,8 +28,13 @@
                               the same for any one of the five / along every history of the five
      C07_five_small_starts    the 20 start URLs of the small scope are related to their Standard's parse;
                               for them: all histories of the five setters, all values
+     C07_opaque_class_corr / C07_five_opaque_class
+                              the second clause of C07_statement (parsing yields related records) for the
+                              opaque-path class of inputs (non-special scheme, rest not led by '/'), and
+                              with it the statement for that class x the five setters x all histories
    The gap: the protocol, host, hostname, pathname and href setters for all records and values, and
-   "every parse outside Known_C01 yields records related by corr" (the second clause of C07_statement).
+   "every parse outside Known_C01 yields records related by corr" (the second clause of C07_statement)
+   beyond the opaque-path class and the 20 computed start URLs.
    It is covered by the fixed-seed differential run implementation <-> specification model of the
    harness (a test). *)
 From Coq Require Import String.
@@ -37,7 +42,7 @@ From RU Require Import Base.Prelude Base.Utf8 Model.AsciiSet Gen.Tables Model.Pe
   Model.HostT Model.UrlRecord Model.Parser Model.Setters Model.WF Model.KnownC01 Model.KnownC07 Spec.Whatwg
   Proofs.C06_FragQuery
   Proofs.C07_Defs Proofs.C07_Histories Proofs.C07_Setters Proofs.C07_GetSet Proofs.C07_Small
-  Proofs.C07_Corr Proofs.C07_EqFive.
+  Proofs.C07_Corr Proofs.C07_EqFive Proofs.C07_EqOpaqueClass.
 
 (* ---------- the statement ---------- *)
 
@@ -279,6 +284,52 @@ Theorem C07_five_small_starts : forall st ops, In st small_starts -> five_ops op
          /\ model_api true u' = Some (spec_api_list toy_shs su').
 Proof. exact five_from_small_starts. Qed.
 Print Assumptions C07_five_small_starts.
+
+(* the second clause of C07_statement for a whole class of inputs: a non-special scheme followed by
+   something that does not start with '/' (the opaque-path class of the C01 equivalence).  Both parsers
+   yield related records - or the model reports Overflow (serialization longer than u32::MAX) *)
+Theorem C07_opaque_class_corr : forall dbg hp ho hd shp shs input sch rem, usv_list input ->
+  parse_scheme CUrlParser (input_new_trim_c0 input) = Some (sch, rem) ->
+  scheme_type_of sch = STNotSpecial -> inp_split_prefix_char 47 rem = None ->
+  exists su, spec_basic_url_parse shp input None = BDone su
+    /\ (parse_url dbg hp ho hd None None input = PErr Overflow
+        \/ exists u, parse_url dbg hp ho hd None None input = POk u /\ corr dbg shs u su).
+Proof. exact opaque_class_corr. Qed.
+Print Assumptions C07_opaque_class_corr.
+
+(* C07_statement restricted to start URLs of that class and to the five setters, histories included:
+   parse, then any sequence of hash / search / username / password / port assignments with any values *)
+Theorem C07_five_opaque_class : forall dbg hp ho hd shp shs input sch rem u ops, usv_list input ->
+  parse_scheme CUrlParser (input_new_trim_c0 input) = Some (sch, rem) ->
+  scheme_type_of sch = STNotSpecial -> inp_split_prefix_char 47 rem = None ->
+  parse_url dbg hp ho hd None None input = POk u ->
+  five_ops ops -> outside_known dbg hp ho hd u ops ->
+  exists su, spec_basic_url_parse shp input None = BDone su
+    /\ model_api dbg u = Some (spec_api_list shs su)
+    /\ forall n, exists u' su',
+         model_run dbg hp ho hd u (firstn n ops) = Some u'
+         /\ spec_run shp su (firstn n ops) = Some su'
+         /\ model_api dbg u' = Some (spec_api_list shs su').
+Proof. exact five_from_opaque_class. Qed.
+Check C07_five_opaque_class : forall dbg hp ho hd shp shs input sch rem u ops, usv_list input ->
+  parse_scheme CUrlParser (input_new_trim_c0 input) = Some (sch, rem) ->
+  scheme_type_of sch = STNotSpecial -> inp_split_prefix_char 47 rem = None ->
+  parse_url dbg hp ho hd None None input = POk u ->
+  five_ops ops -> outside_known dbg hp ho hd u ops ->
+  exists su, spec_basic_url_parse shp input None = BDone su
+    /\ model_api dbg u = Some (spec_api_list shs su)
+    /\ forall n, exists u' su',
+         model_run dbg hp ho hd u (firstn n ops) = Some u'
+         /\ spec_run shp su (firstn n ops) = Some su'
+         /\ model_api dbg u' = Some (spec_api_list shs su').
+Print Assumptions C07_five_opaque_class.
+
+(* the class is inhabited: "  mailto:a b  ?q#f " *)
+Example C07_opaque_class_inhabited :
+  exists sch rem,
+    parse_scheme CUrlParser (input_new_trim_c0 (str "  mailto:a b  ?q#f ")) = Some (sch, rem)
+    /\ scheme_type_of sch = STNotSpecial /\ inp_split_prefix_char 47 rem = None.
+Proof. eexists. eexists. vm_compute. repeat split. Qed.
 
 Example C07_five_ops_inhabited :
   five_ops [(QHash, str "#a b"); (QSearch, str "?x=1#y"); (QUsername, str "me@"); (QPassword, []); (QPort, str "8080x")].
